@@ -321,6 +321,9 @@ def r15_3(ctx: Ctx, rep: Report) -> None:
         f = cls.methods.get("__lt__")
         if f is None:
             continue
+        from .normalise import normalised as _nrm
+
+        f = _nrm(ctx, f, "localcalls")  # a local `def head(members): return ...` is read where it is called
         rep.instance()
         other = f.params[1]
         bad = None
@@ -398,6 +401,9 @@ def block_tie_is_numeric(ctx: Ctx, rep: Report, rid: str = "R15.17") -> None:
     if f is None:
         rep.note(f"{rid} AceGroup.__lt__ not present")
         return
+    from .normalise import normalised as _nrm2
+
+    f = _nrm2(ctx, f, "localcalls")
     other = f.params[1] if len(f.params) > 1 else "other"
     env = single_env(f.node)
     n = 0
@@ -430,6 +436,9 @@ def unnumbered_block_is_not_zero(ctx: Ctx, rep: Report, rid: str = "R15.18") -> 
     if f is None:
         rep.note(f"{rid} AceGroup.__lt__ not present")
         return
+    from .normalise import normalised as _nrm2
+
+    f = _nrm2(ctx, f, "localcalls")
     other = f.params[1] if len(f.params) > 1 else "other"
     n = 0
     for p in function_paths(ctx.cfg(f)):
